@@ -22,7 +22,8 @@ ASSUMPTIONS = ["bit-identity for row perturbation; for permutation / sub-batch r
                "1e-13 relative tolerance is allowed (BLAS may block by row position / batch size); the element-wise "
                "SDE family is compared bitwise there too"]
 REQUIRED_COUNTERS = ["perturb_rows_checked", "permute_runs", "subbatch_runs", "bm_element_checks", "bm_A_checks",
-                     "elementwise_bitwise_runs", "bm_large_batch"]
+                     "elementwise_bitwise_runs", "bm_large_batch",
+                     "via_adjoint_forward_with_adjoint_adaptive"]
 THRESHOLDS = {"matmul_rel": 1e-13}
 
 
@@ -102,14 +103,27 @@ def run_solver(case):
     def base_bm():
         return torchsde.BrownianInterval(0.0, 0.5, size=(B, sde.m), entropy=entropy, levy_area_approximation=levy)
 
-    ref = zoo.solve(cell, sde, y0, ts, dt, bm=base_bm())
+    # a share of the cases takes the values from the forward pass of sdeint_adjoint, with an ADAPTIVE backward solve
+    # requested (adjoint_adaptive=True must not make the fixed-step forward solve adaptive: an adaptive controller's
+    # error norm couples all rows)
+    ekw = {}
+    if rng.random() < 0.3:
+        ekw = dict(adjoint=True, adjoint_adaptive=True, adjoint_params=tuple(p for p in sde.parameters()))
+        cnt["via_adjoint_forward_with_adjoint_adaptive"] = 1
+    _solve = zoo.solve
+
+    def solve(*a, **k):
+        out_ = _solve(*a, **k, **ekw)
+        return out_.detach() if ekw else out_
+
+    ref = solve(cell, sde, y0, ts, dt, bm=base_bm())
     ctx = f"cell={zoo.cell_name(cell)} B={B} d={d} elementwise={elementwise}"
     # (a) perturb other rows
     keep = sorted(rng.sample(range(B), max(1, B // 2)))
     y1 = y0.clone()
     others = [i for i in range(B) if i not in keep]
     y1[others] = y1[others] + torch.randn(len(others), d, generator=gen) * 3
-    out = zoo.solve(cell, sde, y1, ts, dt, bm=base_bm())
+    out = solve(cell, sde, y1, ts, dt, bm=base_bm())
     cnt["perturb_rows_checked"] = len(keep) if others else 0
     if not torch.equal(out[:, keep], ref[:, keep]):
         viol.append({"mechanism": "row_depends_on_other_rows",
@@ -126,7 +140,7 @@ def run_solver(case):
     # (b) permutation
     perm = list(range(B))
     rng.shuffle(perm)
-    outp = zoo.solve(cell, sde, y0[perm], ts, dt, bm=RowMapBrownian(base_bm(), perm))
+    outp = solve(cell, sde, y0[perm], ts, dt, bm=RowMapBrownian(base_bm(), perm))
     ok, e = close(outp, ref[:, perm])
     cnt["permute_runs"] = 1
     mx["permute_diff"] = e
@@ -134,7 +148,7 @@ def run_solver(case):
         viol.append({"mechanism": "permutation_not_equivariant", "detail": f"{ctx} diff {e:.3e}"})
     # (c) sub-batch
     rows = sorted(rng.sample(range(B), rng.randint(1, B)))
-    outs = zoo.solve(cell, sde, y0[rows], ts, dt, bm=RowMapBrownian(base_bm(), rows))
+    outs = solve(cell, sde, y0[rows], ts, dt, bm=RowMapBrownian(base_bm(), rows))
     ok, e = close(outs, ref[:, rows])
     cnt["subbatch_runs"] = 1
     mx["subbatch_diff"] = e
